@@ -9,7 +9,7 @@ from .common import call, call_shallow, to01, Cell, Builder, Slice, Address, tvm
 
 from pytoniq_core.boc.hashmap import HashMap
 
-ROUTES = ['parse', 'load_hashmap', 'from_cell', 'load_dict', 'preload_dict', 'maybe_ref']
+ROUTES = ['parse', 'load_hashmap', 'from_cell', 'load_dict', 'preload_dict', 'maybe_ref', 'preload_dict_after_ref']
 
 
 class St:
@@ -449,6 +449,12 @@ class DictWorld(HistoryWorld):
             r = s.load_dict(n, None, dz)
             if s.remaining_bits or s.remaining_refs:
                 raise AssertionError('load_dict left %d bits %d refs' % (s.remaining_bits, s.remaining_refs))
+        elif route == 'preload_dict_after_ref':
+            s = Builder().store_ref(Builder().store_uint(9, 4).end_cell()).store_dict(cell).end_cell().begin_parse()
+            s.load_ref()
+            r = s.preload_dict(n, None, dz)
+            if s.remaining_bits != 1 or s.remaining_refs != 1:
+                raise AssertionError('preload_dict consumed input')
         elif route == 'preload_dict':
             s = Builder().store_dict(cell).end_cell().begin_parse()
             r = s.preload_dict(n, None, dz)
